@@ -1,6 +1,6 @@
 (* C08 - Segment clipping returns exactly the part of the segment inside the rectangle.  Statements only.
    Exact arithmetic (the code runs unchanged on fractions.Fraction, which is how the model is tied to it). *)
-From Plotink Require Import Base.Prelude Model.Clip Proofs.ClipProofs.
+From Plotink Require Import Base.Prelude Model.Clip Proofs.ClipProofs Corr.C08 Proofs.ClipOracle.
 Open Scope Q_scope.
 
 (* the whole result: on accept the returned endpoints are points seg t1, seg t2 of the input segment with
@@ -25,6 +25,16 @@ Theorem C08_measure : forall xmin xmax ymin ymax, xmin <= xmax -> ymin <= ymax -
   pass xmin xmax ymin ymax it s = inr s' -> (cnt xmin xmax ymin ymax s' < cnt xmin xmax ymin ymax s)%nat.
 Proof. exact pass_decreases. Qed.
 
+(* the reference interval with which float runs are judged (Corr/C08.v, Liang-Barsky) is exactly the set of parameters of the input
+   segment that lie inside the closed rectangle; None = no point of the segment is inside *)
+Theorem C08_reference_interval : forall s xmin xmax ymin ymax,
+  match exact_clip s xmin xmax ymin ymax with
+  | Some (t1, t2) => 0 <= t1 /\ t1 <= t2 /\ t2 <= 1 /\
+                     forall t, (t1 <= t <= t2 <-> 0 <= t <= 1 /\ inside_rect xmin xmax ymin ymax (seg_x s t) (seg_y s t))
+  | None => forall t, 0 <= t <= 1 -> ~ inside_rect xmin xmax ymin ymax (seg_x s t) (seg_y s t)
+  end.
+Proof. exact exact_clip_spec. Qed.
+
 (* non-vacuity: corner-to-corner crossing needs four clips; a grazing segment; a zero-area rectangle *)
 Example C08_examples :
   let r := clip_segment 0 10 0 10 (mkst (-2) (-6) 12 15) in
@@ -39,3 +49,4 @@ Print Assumptions C08_result.
 Print Assumptions C08_accept_iff.
 Print Assumptions C08_no_div0.
 Print Assumptions C08_measure.
+Print Assumptions C08_reference_interval.
